@@ -200,3 +200,15 @@ Proof.
   rewrite (sender_of_app s _ Hs), (after_colon_app s _ Hs), (sender_of_app r _ Hr).
   destruct (String.eqb r "None"); reflexivity.
 Qed.
+
+(* slicing composed with forecasting: whatever the forecast of the sliced protocol offers, after any history, passes the visibility test *)
+Theorem sliced_forecast_visible (vis : msg -> bool) (rules : list (string * rhs)) fuel r m h a :
+  islice fuel vis rules r = Some (Some m) -> In a (fst (forecast msg macc m h)) -> vis a = true.
+Proof.
+  intros Hs Ha.
+  destruct (forecast_exact msg macc String.eqb_eq m h) as [Hf _].
+  apply Hf in Ha. destruct Ha as [w Hw].
+  apply (lang_atoms msg macc String.eqb_eq) in Hw.
+  rewrite Forall_forall in Hw. assert (Hin : In a (h ++ a :: w)) by (apply in_or_app; right; left; reflexivity). specialize (Hw a Hin).
+  pose proof (islice_visible vis rules fuel r m Hs) as Hv. rewrite Forall_forall in Hv. exact (Hv a Hw).
+Qed.
